@@ -47,15 +47,18 @@ func surelyDifferent(a, b []value) bool {
 }
 
 type hashState struct {
-	bufs  map[*value][]value
-	apps  []*hashApp
-	byIn  map[*smt.Term]*hashApp
-	byStr map[string]*hashApp
+	bufs   map[*value][]value
+	apps   []*hashApp
+	byIn   map[*smt.Term]*hashApp
+	byStr  map[string]*hashApp
+	byOut  map[*smt.Term]*hashApp // symbolic digests by their 256-bit variable
+	byConc map[string]*hashApp    // concrete digests by their 32 bytes
 }
 
 func (i *interpreter) hs() *hashState {
 	if i.hash == nil {
-		i.hash = &hashState{bufs: map[*value][]value{}, byIn: map[*smt.Term]*hashApp{}, byStr: map[string]*hashApp{}}
+		i.hash = &hashState{bufs: map[*value][]value{}, byIn: map[*smt.Term]*hashApp{}, byStr: map[string]*hashApp{},
+			byOut: map[*smt.Term]*hashApp{}, byConc: map[string]*hashApp{}}
 	}
 	return i.hash
 }
@@ -102,6 +105,7 @@ func (i *interpreter) sha256Of(in []value) []value {
 			a.in = c.BV(new(big.Int).SetBytes(b), 8*len(b))
 		}
 		h.byStr[string(b)] = a
+		h.byConc[string(sum[:])] = a
 		i.hashAxioms(a)
 		h.apps = append(h.apps, a)
 		return append([]value(nil), res...)
@@ -117,6 +121,7 @@ func (i *interpreter) sha256Of(in []value) []value {
 	}
 	a := &hashApp{n: len(in), in: inT, out: out, sym: true, res: res, inb: append([]value(nil), in...)}
 	h.byIn[inT] = a
+	h.byOut[out] = a
 	i.assertPC(c.BNot(c.Eq(out, c.BV(new(big.Int), 256))))
 	i.hashAxioms(a)
 	h.apps = append(h.apps, a)
@@ -178,4 +183,87 @@ func registerHash() {
 	intrinsics["crypto/sha256.Sum256"] = func(fr *frame, a []value) value {
 		return array(fr.i.sha256Of(a[0].([]value)))
 	}
+}
+
+// digestAt: bytes[k:k+32] are exactly the 32 bytes, in order, of one digest taken on this path (symbolic: the
+// extracts of its variable; concrete: the bytes of a real digest computed on this path, or the all-zero
+// placeholder, reported as app == nil, zero == true).
+func (i *interpreter) digestAt(b []value, k int) (app *hashApp, zero bool, ok bool) {
+	if i.hash == nil || k+32 > len(b) {
+		return nil, false, false
+	}
+	if s0, isSym := b[k].(*Sym); isSym {
+		if s0.T.Op != smt.OpExtract || s0.T.A != 255 || s0.T.B != 248 {
+			return nil, false, false
+		}
+		v := s0.T.Args[0]
+		a := i.hash.byOut[v]
+		if a == nil {
+			return nil, false, false
+		}
+		for j := 1; j < 32; j++ {
+			sj, isSym := b[k+j].(*Sym)
+			if !isSym || sj.T.Op != smt.OpExtract || sj.T.Args[0] != v || sj.T.A != 255-8*j || sj.T.B != 248-8*j {
+				return nil, false, false
+			}
+		}
+		return a, false, true
+	}
+	raw := make([]byte, 32)
+	allZero := true
+	for j := 0; j < 32; j++ {
+		c, isConc := b[k+j].(uint8)
+		if !isConc {
+			return nil, false, false
+		}
+		raw[j] = c
+		if c != 0 {
+			allZero = false
+		}
+	}
+	if allZero {
+		return nil, true, true
+	}
+	if a := i.hash.byConc[string(raw)]; a != nil {
+		return a, false, true
+	}
+	return nil, false, false
+}
+
+// seqEq compares two byte sequences of equal length. Where both hold a whole digest at the same position the
+// comparison is made on the digests (one 256-bit equality, decided at once by the hash model when the inputs
+// are known to differ) instead of 32 byte equalities that only the solver could relate to the axioms.
+func (i *interpreter) seqEq(xb, yb []value) value {
+	var acc value = true
+	for k := 0; k < len(xb); {
+		if i.hash != nil && len(i.hash.byOut) > 0 {
+			ax, zx, okx := i.digestAt(xb, k)
+			ay, zy, oky := i.digestAt(yb, k)
+			if okx && oky && (ax != nil && ax.sym || ay != nil && ay.sym) {
+				var r value
+				switch {
+				case zx || zy:
+					r = false // a digest is never the all-zero placeholder (axiom)
+				case ax == ay:
+					r = true
+				case ax.n != ay.n || ax.n == 0 || surelyDifferent(ax.inb, ay.inb):
+					r = false // collision freedom (axiom)
+				default:
+					r = mkSym(i.ctx.Eq(ax.out, ay.out), types.Bool)
+				}
+				acc = i.andV(acc, r)
+				if acc == false {
+					return false
+				}
+				k += 32
+				continue
+			}
+		}
+		acc = i.andV(acc, i.equalsV(nil, xb[k], yb[k]))
+		if acc == false {
+			return false
+		}
+		k++
+	}
+	return acc
 }
